@@ -1885,4 +1885,201 @@ theorem replay_take {cfg : Cfg} {evs : Array Ev} {order : List Nat} {t t' : TSta
           exact ⟨t2, by simp [replay, he, hs, h2]⟩
 
 
+/-! ### the two arms of the model that no reachable state takes -/
+
+/-- `processQueue` is the only consumer of the queue: between its `Len() != 0` test and its `Pop()` the
+queue can only grow -/
+def PopInv (s : State) : Prop := ∀ f, s.p = .pop f → s.queue ≠ []
+
+theorem pop_step {cfg : Cfg} {s s' : State} {l : Label} (h : PopInv s) (hs : step cfg s l = some s') : PopInv s' := by
+  unfold PopInv at *
+  cases l <;> simp only [step, ite_some_none] at hs <;> obtain ⟨hg, rfl⟩ := hs <;>
+    simp only [State.setC] <;> (try exact h) <;> intro f hf
+  case qAdd j => simp
+  case qDrainAdd j => simp
+  case qSendStop => cases hf
+  case pNotify => cases hf
+  case pLen f' =>
+    by_cases hq : s.queue = []
+    · simp only [hq, if_true] at hf; cases f' <;> cases hf
+    · exact hq
+  case pPopEmpty f' => cases f' <;> simp at hf
+  case pPop f' j => cases hf
+  case pSpawnNew f' j => cases hf
+  case pSpawnReuse f' j => cases hf
+
+theorem pop_reach {cfg : Cfg} {s : State} (h : Reach cfg s) : PopInv s := by
+  induction h with
+  | init => intro f hf; cases hf
+  | step l _ hs ih => exact pop_step ih hs
+
+/-! ### direct use of the public API: the store with map entries refines the entry-less monitor -/
+
+@[simp] theorem setAt_same {α : Type} (f : Nat → α) (g : Nat) (v : α) : setAt f g v g = v := by simp [setAt]
+theorem setAt_other {α : Type} (f : Nat → α) {g k : Nat} (v : α) (h : k ≠ g) : setAt f g v k = f k := by simp [setAt, h]
+
+/-- what the monitor sees of a store: a missing entry is an empty list / a channel without token -/
+structure DRel (d : DState) (m : DMon) : Prop where
+  data : ∀ g, (d.store.data g).getD [] = (m.owed g).reverse
+  notify : ∀ g, (d.store.notify g).getD false = m.sig g
+  out : d.outstanding = m.outstanding
+  queue : d.queue = m.fifo
+
+theorem queuePop_eq (q : List Nat) : queuePop q = (q.head?, q.tail) := by
+  cases q <;> rfl
+
+/-- after `storeResult` the group's entries exist, whatever was there before: the result is on top of
+what the group had and a token is on its channel -/
+theorem store_store_data (st : Store) (g r k : Nat) :
+    ((st.store g r).data k).getD [] = if k = g then r :: (st.data g).getD [] else (st.data k).getD [] := by
+  by_cases hk : k = g
+  · subst hk
+    cases hd : st.data k <;> simp [Store.store, Store.dataEnsured, hd]
+  · cases hd : st.data g <;> simp [Store.store, Store.dataEnsured, hd, setAt_other _ _ hk, hk]
+
+theorem store_store_notify (st : Store) (g r k : Nat) :
+    ((st.store g r).notify k).getD false = if k = g then true else (st.notify k).getD false := by
+  by_cases hk : k = g
+  · subst hk
+    cases hd : st.notify k <;> simp [Store.store, Store.notifyEnsured, hd]
+  · cases hd : st.notify g <;> simp [Store.store, Store.notifyEnsured, hd, setAt_other _ _ hk, hk]
+
+theorem store_ensure_data (st : Store) (g k : Nat) : ((st.ensure g).data k).getD [] = (st.data k).getD [] := by
+  by_cases hk : k = g
+  · subst hk
+    cases hd : st.data k <;> simp [Store.ensure, hd]
+  · cases hd : st.data g <;> simp [Store.ensure, hd, setAt_other _ _ hk]
+
+theorem store_ensure_notify (st : Store) (g k : Nat) : ((st.ensure g).notify k).getD false = (st.notify k).getD false := by
+  by_cases hk : k = g
+  · subst hk
+    cases hd : st.notify k <;> simp [Store.ensure, hd]
+  · cases hd : st.notify g <;> simp [Store.ensure, hd, setAt_other _ _ hk]
+
+/-- one call: the model's outcome is accepted by the monitor and the relation is kept -/
+theorem drel_step (workers : Nat) {d : DState} {m : DMon} (h : DRel d m) (op : DOp) :
+    ∃ m', dmonStep workers m op (dstep workers d op).1 = .ok m' ∧ DRel (dstep workers d op).2 m' := by
+  obtain ⟨hd, hn, ho, hq⟩ := h
+  cases op with
+  | submit g v =>
+    refine ⟨_, by simp only [dstep, dmonStep, Nat.min_le_left, if_true]; rfl, ?_⟩
+    exact ⟨fun k => by simpa [dstep, store_ensure_data] using hd k,
+           fun k => by simpa [dstep, store_ensure_notify] using hn k, by simp [dstep, ho], by simpa [dstep] using hq⟩
+  | submitCancelled g => exact ⟨m, rfl, ⟨hd, hn, ho, hq⟩⟩
+  | finish g v =>
+    refine ⟨_, by simp only [dstep, dmonStep, Nat.min_le_left, if_true]; rfl, ?_⟩
+    refine ⟨fun k => ?_, fun k => ?_, by simp [dstep, ho], by simpa [dstep] using hq⟩
+    · simp only [dstep, store_store_data]
+      by_cases hk : k = g
+      · subst hk; simp [hd k]
+      · simp [hk, setAt_other _ _ hk, hd k]
+    · simp only [dstep, store_store_notify]
+      by_cases hk : k = g
+      · subst hk; simp
+      · simp [hk, setAt_other _ _ hk, hn k]
+  | remove g =>
+    refine ⟨_, rfl, ⟨fun k => ?_, fun k => ?_, by simp [dstep, ho], by simpa [dstep] using hq⟩⟩
+    · by_cases hk : k = g
+      · subst hk; simp [dstep, Store.remove]
+      · simp [dstep, Store.remove, setAt_other _ _ hk, hd k]
+    · by_cases hk : k = g
+      · subst hk; simp [dstep, Store.remove]
+      · simp [dstep, Store.remove, setAt_other _ _ hk, hn k]
+  | results g =>
+    have hl : (d.store.results g).1 = m.owed g := by simp [Store.results, hd g]
+    refine ⟨_, by simp only [dstep, dmonStep, hl, if_true]; rfl, ⟨fun k => ?_, fun k => ?_, by simp [dstep, ho], by simpa [dstep] using hq⟩⟩
+    · by_cases hk : k = g
+      · subst hk; simp [dstep, Store.results]
+      · simp [dstep, Store.results, setAt_other _ _ hk, hd k]
+    · simpa [dstep, Store.results] using hn k
+  | poll g =>
+    have hl : (d.store.poll g).1 = m.sig g := by simp [Store.poll, hn g]
+    refine ⟨_, by simp only [dstep, dmonStep, hl, if_true]; rfl, ⟨fun k => ?_, fun k => ?_, by simp [dstep, ho], by simpa [dstep] using hq⟩⟩
+    · simpa [dstep, Store.poll] using hd k
+    · by_cases hk : k = g
+      · subst hk; simp [dstep, Store.poll]
+      · simp [dstep, Store.poll, setAt_other _ _ hk, hn k]
+  | qAdd vs =>
+    exact ⟨_, rfl, ⟨by simpa [dstep] using hd, by simpa [dstep] using hn, by simp [dstep, ho], by simp [dstep, hq]⟩⟩
+  | qPop =>
+    refine ⟨_, by simp only [dstep, dmonStep, queuePop_eq, hq, if_true]; rfl, ?_⟩
+    exact ⟨by simpa [dstep] using hd, by simpa [dstep] using hn, by simp [dstep, ho], by simp [dstep, queuePop_eq, hq]⟩
+  | qLen =>
+    refine ⟨_, by simp only [dstep, dmonStep, hq, if_true]; rfl, ?_⟩
+    exact ⟨by simpa [dstep] using hd, by simpa [dstep] using hn, by simp [dstep, ho], by simpa [dstep] using hq⟩
+
+theorem drel_run (workers : Nat) (ops : List DOp) : ∀ {d : DState} {m : DMon}, DRel d m →
+    ∃ m', dmonRun workers m ops (drun workers d ops) = .ok m' := by
+  induction ops with
+  | nil => intro d m _; exact ⟨m, rfl⟩
+  | cons op ops ih =>
+    intro d m h
+    obtain ⟨m1, h1, h2⟩ := drel_step workers h op
+    obtain ⟨m2, h3⟩ := ih h2
+    exact ⟨m2, by simp only [drun, dmonRun, h1, h3]⟩
+
+/-- the monitor's bookkeeping: per group, what finished = what was handed out + what the client wiped +
+what is still owed (as multisets) -/
+def DCons (m : DMon) : Prop :=
+  ∀ g v, (m.finished g).count v = (m.delivered g).count v + (m.wiped g).count v + (m.owed g).count v
+
+theorem dcons_step {workers : Nat} {m m' : DMon} {op : DOp} {out : DOut} (h : DCons m)
+    (hs : dmonStep workers m op out = .ok m') : DCons m' := by
+  unfold DCons at *
+  cases op <;> cases out <;> simp only [dmonStep] at hs <;> (try (cases hs; done))
+  case submit.accepted g v r =>
+    split at hs <;> cases hs
+    exact h
+  case submitCancelled.refused g => cases hs; exact h
+  case finish.finished g v r =>
+    split at hs <;> cases hs
+    intro k w
+    by_cases hk : k = g
+    · subst hk; have := h k w; simp [List.count_append]; omega
+    · simpa [setAt_other _ _ hk] using h k w
+  case remove.unit g =>
+    cases hs
+    intro k w
+    by_cases hk : k = g
+    · subst hk; have := h k w; simp [List.count_append]; omega
+    · simpa [setAt_other _ _ hk] using h k w
+  case results.vals g l =>
+    split at hs <;> cases hs
+    rename_i hl
+    intro k w
+    by_cases hk : k = g
+    · subst hk; have := h k w; simp [List.count_append, hl]; omega
+    · simpa [setAt_other _ _ hk] using h k w
+  case poll.token g b =>
+    split at hs <;> cases hs
+    exact h
+  case qAdd.unit vs => cases hs; exact h
+  case qPop.popped o =>
+    split at hs <;> cases hs
+    exact h
+  case qLen.len n =>
+    split at hs <;> cases hs
+    exact h
+
+theorem dcons_run {workers : Nat} (ops : List DOp) : ∀ {outs : List DOut} {m m' : DMon}, DCons m →
+    dmonRun workers m ops outs = .ok m' → DCons m' := by
+  induction ops with
+  | nil =>
+    intro outs m m' h hr
+    cases outs with
+    | nil => simp only [dmonRun] at hr; cases hr; exact h
+    | cons o os => simp [dmonRun] at hr
+  | cons op ops ih =>
+    intro outs m m' h hr
+    cases outs with
+    | nil => simp [dmonRun] at hr
+    | cons o os =>
+      simp only [dmonRun] at hr
+      cases hs : dmonStep workers m op o with
+      | error e => simp [hs] at hr
+      | ok m1 =>
+        simp only [hs] at hr
+        exact ih (dcons_step h hs) hr
+
+
 end AutoVerif.C14
